@@ -13,6 +13,8 @@ import (
 	"github.com/cockroachdb/errors/errutil"
 	"github.com/cockroachdb/errors/withstack"
 
+	pkgErrors "github.com/pkg/errors"
+
 	"verif/harness/lv3"
 )
 
@@ -228,6 +230,7 @@ func runC16(res *Result) {
 			}
 		}
 	}
+	oracleC16Innermost(res)
 	res.Distinct = res.Cases
 	res.Extra = map[string]interface{}{"c16_table_names": names}
 	res.Rule = "every exported stack-capturing / domain-computing function of the root package, errutil, withstack, domains × depth 0..3 (depth variants) through a chain of non-inlinable frames in distinct packages; the expected frame is read off runtime.Callers inside the calling closure"
@@ -244,4 +247,57 @@ func c16Deep(n int, f func() interface{}) interface{} {
 	r := c16Deep(n-1, f)
 	runtime.KeepAlive(n)
 	return r
+}
+
+//go:noinline
+func c16Origin() error { return errors.New("origin") }
+
+//go:noinline
+func c16PkgOrigin() error { return pkgErrors.New("pkg origin") }
+
+// oracleC16Innermost: GetOneLineSource names the INNERMOST recorded frame, wherever the other
+// stacks of the chain come from: captured locally above it, received from the network below a
+// local one (a printed stack inside, a native stack outside), or both received.
+func oracleC16Innermost(res *Result) {
+	src := func(e error) string {
+		file, line, fn, ok := errors.GetOneLineSource(e)
+		return fmt.Sprintf("%s:%d %s %v", file, line, fn, ok)
+	}
+	for _, origin := range []struct {
+		name string
+		mk   func() error
+	}{{"errors.New", c16Origin}, {"pkg/errors.New", c16PkgOrigin}} {
+		o := origin.mk()
+		want := src(o)
+		hop := func(e error) error { d, _ := hopsReal(e, 1); return d }
+		shapes := []namedErr{
+			{"WithStack(origin)", errors.WithStack(o)},
+			{"Wrap(WithHint(origin))", errors.Wrap(errors.WithHint(o, "h"), "ctx")},
+			{"hop(origin)", hop(o)},
+			{"hop(Wrap(origin))", hop(errors.Wrap(o, "ctx"))},
+			{"Wrap(hop(origin))", errors.Wrap(hop(o), "local")},
+			{"WithStack(hop(origin))", errors.WithStack(hop(o))},
+			{"WithStackDepth(hop(Wrap(origin)))", errors.WithStackDepth(hop(errors.Wrap(o, "remote")), 0)},
+			{"Wrapf(WithDetail(hop(origin)))", errors.Wrapf(errors.WithDetail(hop(o), "d"), "x %d", 1)},
+			{"WithAssertionFailure(WithStack(hop(origin)))", errors.WithAssertionFailure(errors.WithStack(hop(o)))},
+			{"hop(Wrap(hop(origin)))", hop(errors.Wrap(hop(o), "mid"))},
+		}
+		for _, sh := range shapes {
+			res.Cases++
+			res.OracleEvals["C16.one_line_source_innermost"]++
+			cse := &Case{ID: "innermost/" + origin.name + "/" + sh.name, Cmd: L(Sym("c16-innermost"), Str(origin.name), Str(sh.name))}
+			if sh.e == nil {
+				res.fail(cse, "C16.harness", "hop failed", "C16:harness")
+				continue
+			}
+			var got string
+			if ok, pv := catch(func() { got = src(sh.e) }); !ok {
+				res.fail(cse, "C16.no_panic", fmt.Sprint(pv), "C16:panic:GetOneLineSource")
+				continue
+			}
+			if got != want {
+				res.fail(cse, "C16.one_line_source_innermost", fmt.Sprintf("%s: got %q, the innermost recorded frame is %q", sh.name, got, want), "C16:source-innermost")
+			}
+		}
+	}
 }
